@@ -263,6 +263,27 @@ def samples(M0, M1, U):
 
 
 def gen_match():
+    """never raises: a failure of the translator itself yields an empty table whose header names the
+    error, so that `templates_ok`'s non-emptiness example (and with it the C07 check) fails, while the
+    shared translate step of the other properties keeps working"""
+    try:
+        return _gen_match()
+    except Exception as e:  # noqa
+        import traceback
+        msg = ("%s: %s | %s" % (type(e).__name__, e, traceback.format_exc()[-600:])).replace("-/", "- /").replace("\n", " ")
+        return ("/- GENERATED by harness/translate_match.py.  TRANSLATOR ERROR: %s\n"
+                "   unmodelled templates: translator error -/\n"
+                "import PartituraModel.Model.Template\nnamespace Gen\nopen Model.Template\n"
+                "def matchTemplates : List Template := []\ndef matchComposites : List Composite := []\n"
+                "def dispatchOrderV0 : List String := []\ndef dispatchOrderV1 : List String := []\n"
+                "def v1InfoAttributes : List String := []\ndef v1ScorepropAttributes : List String := []\n"
+                "def infoAttributeEquivalences : List (String × String) := []\n"
+                "def scorepropAttributeEquivalences : List (String × String) := []\n"
+                "def latestVersion : Nat × Nat × Nat := (1, 0, 0)\ndef lastVersionV0 : Nat × Nat × Nat := (0, 5, 0)\n"
+                "end Gen\n") % msg
+
+
+def _gen_match():
     import partitura.io.matchlines_v0 as M0
     import partitura.io.matchlines_v1 as M1
     import partitura.io.matchfile_utils as U
